@@ -157,3 +157,12 @@ def env(**kv: Optional[str]):
 def short(obj: Any, n: int = 400) -> str:
     s = obj if isinstance(obj, str) else json.dumps(obj, default=str)
     return s if len(s) <= n else s[: n - 3] + "..."
+
+
+def num(x: Any) -> Any:
+    """numpy / pandas scalar -> plain Python number (int when integral), so harness arithmetic neither wraps nor truncates."""
+    if hasattr(x, "item"):
+        x = x.item()
+    if isinstance(x, float) and x == x and x not in (float("inf"), float("-inf")) and x == int(x):
+        return int(x)
+    return x
